@@ -217,3 +217,27 @@ def validate(seed: int = 0, rounds: int = 60) -> tuple[int, list[str]]:
     finally:
         logging.disable(logging.NOTSET)
     return done, bad
+
+
+class _SAProxy:
+    """`sa` as seen by the repository module, with schema-object construction run outside CrossHair tracing
+    (Table.__new__ is wrapped by decorators whose closures CrossHair's enforcement layer cannot inspect).
+    Only DDL object construction is affected; no data flows through it."""
+
+    def __init__(self, real: Any):
+        self._real = real
+
+    def __getattr__(self, name: str) -> Any:
+        v = getattr(self._real, name)
+        if name in ("Table", "Column"):
+            from vlib.sqlsem import untraced
+
+            def make(*a: Any, **k: Any) -> Any:
+                return untraced(lambda: v(*a, **k))
+            return make
+        return v
+
+
+def install_sa_proxy() -> None:
+    if not isinstance(sdh.sa, _SAProxy):
+        sdh.sa = _SAProxy(sdh.sa)  # type: ignore[assignment]
